@@ -1416,6 +1416,8 @@ class Interp(object):
             if f.name in self.externals:
                 return self.call(self.externals[f.name], args, kwargs)
             raise Unsupported("call of external %s (no assumed contract registered)" % f.name)
+        if f is None or isinstance(f, (int, Q, T, str, list, tuple, dict, np.ndarray)):
+            raise PyRaise(mk_exc("TypeError", "'%s' object is not callable" % type(f).__name__))
         if callable(f):
             return f(self, *args, **kwargs)
         raise Unsupported("call of %r" % type(f).__name__)
@@ -1527,6 +1529,9 @@ class Interp(object):
             raise PyRaise(mk_exc("TypeError", "unsupported operand types for %s" % k))
         if isinstance(a, Opaque) or isinstance(b, Opaque):
             raise Unsupported("arithmetic on external value %r / %r" % (a, b))
+        from .npmodel import MaskedSel
+        if isinstance(a, MaskedSel) or isinstance(b, MaskedSel):
+            return MaskedSel.combine(self, k, a, b)
         if isinstance(a, np.ndarray) or isinstance(b, np.ndarray):
             return self.np.binop(k, a, b, inplace)
         # python containers / strings
